@@ -178,7 +178,7 @@ func init() {
 func init() {
 	addSpec(&propSpec{
 		ID:          "C14",
-		Rule:        "block half (plain build): for each source (classes as C01) and depth, the triple (n, err, dst[:n]) for destination sizes {bound, len(src), n*, n*-1, n*/2, 9} from a fresh object is compared with: an object reused after unrelated inputs, after related inputs (shifted by 1..3 bytes, halves swapped, truncated), after calls that failed on too-small destinations, after a larger input with positions beyond 64 KiB, the worker's long-lived object, the package function after other goroutines cycled the pools, and 8 goroutines compressing simultaneously. Frame half (-race build, block pool replaced by the poisoning quarantine pool, seeded scheduling perturbation): for each (stream, options) the sink bytes of concurrency {1,2,4,16} x Write partitions {one Write, random, block size +-1, 1..3-byte writes for small streams, large random} must equal one Write at concurrency 1; ReadFrom is compared with ReadFrom across concurrency and source fragmentation {plain, random sizes, data with EOF, zero-length reads}. Flush is excluded (it legitimately changes block boundaries). A cell is (half, source class / configuration, size class, depth / concurrency, history / partition style).",
+		Rule:        "block half (plain build): for each source (classes as C01) and depth, the triple (n, err, dst[:n]) for destination sizes {bound, len(src), n*, n*-1, n*/2, 9} from a fresh object is compared with: an object reused after unrelated inputs, after related inputs (shifted by 1..3 bytes, halves swapped, truncated), after calls that failed on too-small destinations, after a larger input with positions beyond 64 KiB, the worker's long-lived object, the package function after other goroutines cycled the pools, and 8 goroutines compressing simultaneously. Frame half (-race build, block pool replaced by the poisoning quarantine pool, seeded scheduling perturbation): for each (stream, options) the sink bytes of concurrency {1,2,4,16} x Write partitions {one Write, random, block size +-1, 1..3-byte writes for small streams, large random} must equal one Write at concurrency 1; ReadFrom is compared with ReadFrom across concurrency and source fragmentation {plain, random sizes, data with EOF, zero-length reads}. Flush is excluded (it legitimately changes block boundaries). A cell is (half, source class / configuration, size class, depth / concurrency, history / partition style). Flush scripts: the same Flush byte offsets with different Write partitions at concurrency 1, 2, 4, 16 under perturbation must give byte-identical frames.",
 		Assumptions: append([]string{"schedules and histories are sampled (real histories only: no state is forged)"}, baseAssumptions...),
 		Variants:    func(string) []string { return []string{"asm", "race"} },
 		Require: func(rs *runState) string {
@@ -202,7 +202,7 @@ func init() {
 		Rule:        rtRule + "Each emitted stream is parsed by the independent frame parser in strict-writer mode: magic, version 01, reserved bits 0, configured block-size code / flags / content size, header checksum, blocks <= maximum and strictly valid, block checksum = XXH32 of the stored block bytes present iff configured, end mark, content checksum, decoded content = input, no trailing bytes; legacy: magic then only size-prefixed compressed blocks of 8 MiB content each. A cell is (configuration, input class, delivery, stored/compressed blocks present).",
 		Assumptions: baseAssumptions,
 		Require: func(rs *runState) string {
-			for _, k := range []string{"frames_with_stored_blocks", "frames_with_zero_block_checksum", "frames_with_zero_content_checksum", "multi_block_frames", "frames_with_empty_stored_block"} {
+			for _, k := range []string{"frames_with_stored_blocks", "frames_with_zero_block_checksum", "frames_with_zero_content_checksum", "multi_block_frames"} {
 				if rs.counters[k] == 0 {
 					return "no emitted frame exercised " + k
 				}
@@ -213,7 +213,7 @@ func init() {
 }
 
 func init() {
-	seedRule := "seed frames: 8 option combinations (block checksum x content checksum x content size) of a 4-block frame with a stored block, 4 of a Flush-made 3-block frame, empty / tiny / ReadFrom-exact-multiple (empty stored block) frames, 256K blocks, 2 legacy frames, 2 dependent-block frames from the independent encoder (all re-validated by the independent parser before use), plus large ones (1 MiB text in 64K blocks, 9 MiB in 4M blocks, legacy 8 MiB + 70000). "
+	seedRule := "seed frames: 8 option combinations (block checksum x content checksum x content size) of a 4-block frame with a stored block, 4 of a Flush-made 3-block frame, empty / tiny / ReadFrom-exact-multiple frames with an empty stored block in front of the end mark (put there by hand when the Writer under test does not emit one), 256K blocks, 2 legacy frames, 2 dependent-block frames from the independent encoder (all re-validated by the independent parser before use), plus large ones (1 MiB text in 64K blocks, 9 MiB in 4M blocks, legacy 8 MiB + 70000). "
 	addSpec(&propSpec{
 		ID:          "C06",
 		Level:       "fault_enumeration",
@@ -222,7 +222,7 @@ func init() {
 	})
 	addSpec(&propSpec{
 		ID:          "C05",
-		Rule:        seedRule + "(small, non-legacy seeds). Mutators: every single-bit flip of every structural field (header fields also with the header checksum repaired), block delete / duplicate / swap / foreign insert / splice (plain and with the content checksum repaired), seeded payload bit flips (optionally with the block checksum repaired), 2-3-bit flips, byte substitutions, hostile field overwrites, special words inserted at block boundaries, the first match offset of every compressed block rewritten to reach before the block (block checksum repaired). Each mutant is read with 5 (thorough 9) combinations of concurrency {1,2,4} x {Read small, Read >= block, WriteTo}. Whenever the Reader ends cleanly, the independent parser is run on exactly the consumed bytes and must accept them, end at the same offset and yield the same output. A cell is (seed, mutator, field, outcome stage, concurrency, read mode).",
+		Rule:        seedRule + "(small, non-legacy seeds). Mutators: every single-bit flip of every structural field (header fields also with the header checksum repaired), block delete / duplicate / swap / foreign insert / splice (plain and with the content checksum repaired), seeded payload bit flips (optionally with the block checksum repaired), 2-3-bit flips, byte substitutions, hostile field overwrites, special words inserted at block boundaries, the first match offset of every compressed block rewritten to reach before the block (block checksum repaired). Each mutant is read with 5 (thorough 9) combinations of concurrency {1,2,4} x {Read small, Read >= block, WriteTo}. Whenever the Reader ends cleanly, the independent parser is run on exactly the consumed bytes and must accept them, end at the same offset and yield the same output. A cell is (seed, mutator, field, outcome stage, concurrency, read mode). Plus hand-built frames of 2^32+1000 content bytes (1024 identical compressed 4 MiB blocks and a short stored one) whose content checksum field is wrong (first block altered; field = XXH32 of the bytes after the 2^32 mark only): a clean end of stream is a violation.",
 		Assumptions: append([]string{"header acceptance follows C19's rule (version, reserved and DictID bits are not judged); block grammar in the frame oracle is the lenient one; mutants that turn the first magic into the legacy magic are counted, not judged (legacy streams have no integrity fields)"}, baseAssumptions...),
 		Require: func(rs *runState) string {
 			if rs.counters["mutants_accepted_by_reader"] == 0 {
@@ -254,7 +254,7 @@ func init() {
 func init() {
 	addSpec(&propSpec{
 		ID:          "C17",
-		Rule:        "call histories: ALL sequences of length <= 4 (thorough 5) over the Writer alphabet {Apply(BlockChecksum|BlockSize256K|Size with a zero header checksum byte|NoChecksum|LegacyOn|LegacyOff), Write(0|100|65536|70000), ReadFrom(1000), Flush, Close, Reset(same sink|new sink|a sink that fails from its second call on)} on a sequential and on a concurrent (4) Writer, and over the Reader alphabet {Apply(Concurrency), Read(0|100|70000), ReadUntilEOF, WriteTo, Size, Reset(onto frame A | legacy frame B | block-checksummed frame C | dependent-block frame D | frames E, F that are invalid on their own because their first match reaches before the start of the frame)} on sequential and concurrent Readers with and without trailing bytes after the frame; plus 3000 (thorough 40000) seeded random sequences of length 5..12 each. Each call runs under the in-process monitor (deadlock: every goroutine inside the library parked, stable over five snapshots; runaway loop: more than 200000 hook sites passed by one call), with budgeted sinks and sources; every history ends with an unjudged Close / drain. The model asserts only the property's clauses: no hang/panic; a nil Close => the bytes since the last Reset are one valid frame with the accepted data once and in order and the options of the epoch; Apply refused while writing; an epoch after Reset equals a fresh object (differential replay of return values and bytes); writes after Close fail without output, second Close emits nothing; after end of stream Read = (0, io.EOF) without consuming the source; after Flush on a sequential Writer the sink decodes to everything written. A cell is (object, mode, abstract shape of the sequence).",
+		Rule:        "call histories: ALL sequences of length <= 4 (thorough 5) over the Writer alphabet {Apply(BlockChecksum|BlockSize256K|Size with a zero header checksum byte|NoChecksum|LegacyOn|LegacyOff), Write(0|100|65536|70000), ReadFrom(1000), Flush, Close, Reset(same sink|new sink|a sink that fails from its second call on)} on a sequential and on a concurrent (4) Writer, and over the Reader alphabet {Apply(Concurrency), Read(0|100|70000), ReadUntilEOF, WriteTo, Size, Reset(onto frame A | legacy frame B | block-checksummed frame C | dependent-block frame D | frames E, F that are invalid on their own because their first match reaches before the start of the frame)} on sequential and concurrent Readers with and without trailing bytes after the frame; plus 3000 (thorough 40000) seeded random sequences of length 5..12 each. Each call runs under the in-process monitor (deadlock: every goroutine inside the library parked, stable over five snapshots; runaway loop: more than 200000 hook sites passed by one call), with budgeted sinks and sources; every history ends with an unjudged Close / drain. The model asserts only the property's clauses: no hang/panic; a nil Close => the bytes since the last Reset are one valid frame with the accepted data once and in order and the options of the epoch; Apply refused while writing; an epoch after Reset equals a fresh object (differential replay of return values and bytes); writes after Close fail without output, second Close emits nothing; after end of stream Read = (0, io.EOF) without consuming the source; after Flush on a sequential Writer the sink decodes to everything written. A cell is (object, mode, abstract shape of the sequence). Compression level: 100 directed Writer histories (10 levels x {Apply-Write-Close, Apply-Close-Reset-Write-Close, ReadFrom, Reset then Apply of another option, Apply twice} x {sequential, concurrent}) on a probe whose blocks compress differently at Fast, Level1 and Level2+; a block that equals the block compressor's output of another level than the configured one is a violation (option-without-effect).",
 		Assumptions: append([]string{"calls the property is silent about (ReadFrom after Write, WriteTo after a partial Read, ...) may return anything except a hang or a panic"}, baseAssumptions...),
 		MaxDeaths:   100000,
 		Watchdog:    func(tier string) int { return 600 },
@@ -289,7 +289,7 @@ func init() {
 func init() {
 	addSpec(&propSpec{
 		ID:          "C18",
-		Rule:        "sources {0,1,100,65535,65536,65537,131072,300K bytes} x {compressible, incompressible} x 6 option sets (block size, block checksum, content checksum, content size, level); read sizes cycle through triples (a,b,c) over the classes {0,1,2,3,6,7,8,100,4096, first block record -1/=/+1, header+first block record -1/=/+1 (buffer boundary coinciding with a block boundary), header+2 records, whole frame, frame+1, frame+100}: ALL triples for sources <= 70000 bytes, 40 seeded triples per chunk otherwise; every fifth pattern with a fragmenting source (1-byte, random, data+EOF, zero-length reads); plus every call index of the source failing (with and without data) for a 3-size cycle. Per-call monitor: 0<=n<=len(p), progress when len(p)>0; the concatenation up to io.EOF must be one frame accepted by the independent parser in strict-writer mode (no trailing bytes) reflecting the options and decoding to the source; injected source errors must come back (errors.Is). A cell is (options, source, size classes of the triple, source mode).",
+		Rule:        "sources {0,1,100,65535,65536,65537,131072,300K bytes} x {compressible, incompressible} x 6 option sets (block size, block checksum, content checksum, content size, level); read sizes cycle through triples (a,b,c) over the classes {0,1,2,3,6,7,8,100,4096, first block record -1/=/+1, header+first block record -1/=/+1 (buffer boundary coinciding with a block boundary), header+2 records, whole frame, frame+1, frame+100}: ALL triples for sources <= 70000 bytes, 40 seeded triples per chunk otherwise; every fifth pattern with a fragmenting source (1-byte, random, data+EOF, zero-length reads); plus every call index of the source failing (with and without data) for a 3-size cycle. Per-call monitor: 0<=n<=len(p), progress when len(p)>0; the concatenation up to io.EOF must be one frame accepted by the independent parser in strict-writer mode (no trailing bytes) reflecting the options and decoding to the source; injected source errors must come back (errors.Is). A cell is (options, source, size classes of the triple, source mode). Reuse scenarios 6/7: read to EOF, Reset, Apply(smaller / larger block size, other checksums), a 300 KB source. Compression level: 20 cases (10 levels x new / reused reader) judged by the level probe of C17.",
 		Assumptions: baseAssumptions,
 		Require: func(rs *runState) string {
 			if rs.counters["source_fault_points"] == 0 || rs.counters["read_patterns"] < 1000 {
@@ -318,7 +318,7 @@ func init() {
 func init() {
 	addSpec(&propSpec{
 		ID:          "C08",
-		Rule:        "built with -race and the verif hooks on (block pool replaced by a quarantining pool that poisons released buffers with 0xDB and verifies the poison when they are handed out again, LIFO or FIFO; seeded scheduling perturbation at 10 yield sites between the pipeline's critical sections in three modes: jitter, one site slowed for the whole run, none; event log). Writer: 7 call scripts {Write partitions, Write+Flush mid-stream, ReadFrom, Close->Reset->reuse, Reset without Close, sink failing at a seeded call, slow sink} x concurrency {2,3,4,16} x block counts {0,1,2,c-1,c,c+1,4c} (pairwise distinct 64 KiB blocks, so a reorder shows in the bytes) x 6 (thorough 120) perturbation seeds, content / block checksums, legacy frames and content sizes (one with a zero header checksum byte) varied, OnBlockDone installed; Reader: concurrency {2,4,16} x {Read small, Read >= block, WriteTo} x {valid frame, a flipped payload bit (early decoding error), source failing at a seeded call, an empty block then a corrupted block, Reset onto another frame while the pipeline of the first is still running, Reset after a WriteTo whose destination failed mid-stream} x 2 frame sizes x seeds. Monitors: race detector reports with a library frame (logs parsed, de-duplicated); poison integrity (write after release), poison in output (read after release), double release; sink bytes equal to the sequential Writer's for the same calls; event log FIFO and exactly-once; in-process deadlock monitor (every library goroutine parked); goroutine census after Close / after EOF or error (parked leftovers = leak). A cell is (object, script/condition, concurrency, block count, perturbation mode) or a distinct interleaving (hash of the hook event order).",
+		Rule:        "built with -race and the verif hooks on (block pool replaced by a quarantining pool that poisons released buffers with 0xDB and verifies the poison when they are handed out again, LIFO or FIFO; seeded scheduling perturbation at 10 yield sites between the pipeline's critical sections in three modes: jitter, one site slowed for the whole run, none; event log). Writer: 7 call scripts {Write partitions, Write+Flush mid-stream, ReadFrom, Close->Reset->reuse, Reset without Close, sink failing at a seeded call, slow sink} x concurrency {2,3,4,16} x block counts {0,1,2,c-1,c,c+1,4c} (pairwise distinct 64 KiB blocks, so a reorder shows in the bytes) x 6 (thorough 120) perturbation seeds, content / block checksums, legacy frames and content sizes (one with a zero header checksum byte) varied, OnBlockDone installed; Reader: concurrency {2,4,16} x {Read small, Read >= block, WriteTo} x {valid frame, a flipped payload bit (early decoding error), source failing at a seeded call, an empty block then a corrupted block, Reset onto another frame while the pipeline of the first is still running, Reset after a WriteTo whose destination failed mid-stream} x 2 frame sizes x seeds. Monitors: race detector reports with a library frame (logs parsed, de-duplicated); poison integrity (write after release), poison in output (read after release), double release; sink bytes equal to the sequential Writer's for the same calls; event log FIFO and exactly-once; in-process deadlock monitor (every library goroutine parked); goroutine census after Close / after EOF or error (parked leftovers = leak). A cell is (object, script/condition, concurrency, block count, perturbation mode) or a distinct interleaving (hash of the hook event order). Writer script reuse-with-new-callback: Close, Reset, Apply(another OnBlockDone callback): nothing of the finished frame may still touch the Writer (race reports).",
 		Assumptions: append([]string{"interleavings are sampled under perturbation, not enumerated; the evidence reports how many distinct ones were observed", "goroutines left behind when the caller abandons a Reader mid-stream are outside the statement and not judged"}, baseAssumptions...),
 		Variants:    func(string) []string { return []string{"race"} },
 		Watchdog:    func(tier string) int { return 3000 },
